@@ -86,6 +86,7 @@ type World struct {
 	gt        globalTables
 	closureBindings map[*ssa.MakeClosure][]ssa.Value
 	prof      *Profile
+	initNotes map[string]bool
 }
 
 func goEnv() []string {
@@ -98,7 +99,7 @@ func loadWorld(repo string, withContracts bool) (*World, error) {
 	w := &World{Repo: repo, Contracts: map[string]*Contract{}, Specs: map[*types.Func]*SpecFn{},
 		SpecByName: map[string]*SpecFn{}, Ghosts: map[*types.Func]string{}, Overlays: map[string]string{},
 		PkgByPath: map[string]*packages.Package{}, SSAPkgs: map[string]*ssa.Package{}, IfaceContracts: map[string]*Contract{},
-		GhostConst: map[string]bool{}, tags: newTypeTags(), closureBindings: map[*ssa.MakeClosure][]ssa.Value{}}
+		GhostConst: map[string]bool{}, initNotes: map[string]bool{}, tags: newTypeTags(), closureBindings: map[*ssa.MakeClosure][]ssa.Value{}}
 	overlay := map[string][]byte{}
 	if withContracts {
 		for _, d := range verifiedPkgDirs {
